@@ -1,4 +1,4 @@
-//! lazy_diff (C15): LazyVecFrom1/2/3, LazyDeltaVec<DeltaSub>, LazyAggVec<Sparse> over BytesVec sources.
+//! lazy_diff (C15): LazyVecFrom1/2/3, LazyDeltaVec<DeltaSub>, LazyDeltaVec<DeltaChange>, LazyAggVec<Sparse> over BytesVec sources.
 //! Requests: `src k v,…` (replace source k: truncate + push + write; sources may grow after the lazy vector
 //! was built), `map v,…` (window starts / first indexes), `len`, `range a b`, `one i`, `sorted i,…`.
 //! Every read goes through ALL read APIs of the vector; they must agree with each other and with the
@@ -12,7 +12,7 @@ use std::{
 
 use rawdb::Database;
 use vecdb::{
-    AnyStoredVec, AnyVec, BytesVec, DeltaSub, ImportableVec, LazyAggVec, LazyDeltaVec, LazyVecFrom1, LazyVecFrom2, LazyVecFrom3,
+    AnyStoredVec, AnyVec, BytesVec, DeltaChange, DeltaSub, ImportableVec, LazyAggVec, LazyDeltaVec, LazyVecFrom1, LazyVecFrom2, LazyVecFrom3,
     ReadableCloneableVec, ReadableVec, Version, WritableVec,
 };
 
@@ -25,6 +25,8 @@ enum Lz {
     F2(LazyVecFrom2<usize, u64, usize, u64, usize, u64>),
     F3(LazyVecFrom3<usize, u64, usize, u64, usize, u64, usize, u64>),
     Delta(LazyDeltaVec<usize, u64, u64, DeltaSub>),
+    /// change since the window start: lookback = the start index itself; u32 source, f64 output (exact on small integers)
+    Chg(LazyDeltaVec<usize, u32, f64, DeltaChange>),
     Agg(LazyAggVec<usize, Option<u64>, usize, usize, u64>),
 }
 
@@ -33,6 +35,7 @@ pub struct Case {
     _db: Database,
     kind: String,
     src: Vec<Src>,
+    src32: Option<BytesVec<usize, u32>>,
     vals: Vec<Vec<u64>>,
     mapping: Arc<RwLock<Arc<[usize]>>>,
     lz: Lz,
@@ -49,18 +52,28 @@ impl Case {
         let src: Vec<Src> = (0..n).map(|k| Src::forced_import(&db, &format!("s{k}"), Version::ONE).unwrap()).collect();
         let mapping: Arc<RwLock<Arc<[usize]>>> = Arc::new(RwLock::new(Arc::from(Vec::<usize>::new())));
         let m2 = mapping.clone();
+        let src32: Option<BytesVec<usize, u32>> = if kind == "chg" { Some(BytesVec::forced_import(&db, "s32", Version::ONE).unwrap()) } else { None };
         let lz = match kind {
+            "chg" => Lz::Chg(LazyDeltaVec::new("l", Version::ONE, src32.as_ref().unwrap().read_only_boxed_clone(), Version::ONE, move || m2.read().unwrap().clone())),
             "from2" => Lz::F2(LazyVecFrom2::init("l", Version::ONE, src[0].read_only_boxed_clone(), src[1].read_only_boxed_clone(), |i, a, b| a + 3 * b + i as u64)),
             "from3" => Lz::F3(LazyVecFrom3::init("l", Version::ONE, src[0].read_only_boxed_clone(), src[1].read_only_boxed_clone(), src[2].read_only_boxed_clone(), |i, a, b, c| a + 3 * b + 5 * c + i as u64)),
             "delta" => Lz::Delta(LazyDeltaVec::new("l", Version::ONE, src[0].read_only_boxed_clone(), Version::ONE, move || m2.read().unwrap().clone())),
             "agg" => Lz::Agg(LazyAggVec::new("l", Version::ONE, Version::ONE, src[0].read_only_boxed_clone(), move || m2.read().unwrap().clone())),
             _ => Lz::F1(LazyVecFrom1::init("l", Version::ONE, src[0].read_only_boxed_clone(), |i, a| a * 2 + i as u64)),
         };
-        Case { _dir: dir, _db: db, kind: kind.into(), vals: vec![vec![]; n], src, mapping, lz }
+        Case { _dir: dir, _db: db, kind: kind.into(), vals: vec![vec![]; n], src, src32, mapping, lz }
     }
 
     fn set_src(&mut self, k: usize, v: Vec<u64>) {
         // keep the common prefix, rewrite the rest
+        if let Some(s) = self.src32.as_mut() {
+            let keep = self.vals[k].iter().zip(v.iter()).take_while(|(a, b)| a == b).count();
+            s.truncate_if_needed_at(keep).unwrap();
+            for x in &v[keep..] { s.push(*x as u32); }
+            s.write().unwrap();
+            self.vals[k] = v;
+            return;
+        }
         let s = &mut self.src[k];
         let keep = self.vals[k].iter().zip(v.iter()).take_while(|(a, b)| a == b).count();
         s.truncate_if_needed_at(keep).unwrap();
@@ -78,6 +91,12 @@ impl Case {
                 if i >= s.len() || i >= m.len() { return None; }
                 let start = m[i];
                 let ago = if start == 0 { 0 } else { *s.get(start - 1)? };
+                Some(Some(s[i].saturating_sub(ago)))
+            }
+            "chg" => {
+                let s = &self.vals[0];
+                if i >= s.len() || i >= m.len() { return None; }
+                let ago = *s.get(m[i])?;
                 Some(Some(s[i].saturating_sub(ago)))
             }
             "agg" => {
@@ -116,6 +135,7 @@ impl Case {
         match self.kind.as_str() {
             "agg" if m.iter().any(|&x| x > n) => " [mapping beyond source]",
             "delta" if m.iter().enumerate().any(|(i, &s)| s > i) => " [empty window]",
+            "chg" if m.iter().enumerate().any(|(i, &s)| s > i) => " [window starts after its index]",
             _ => "",
         }
     }
@@ -128,7 +148,7 @@ impl Case {
             "src" => { self.set_src(ws[1].parse().unwrap(), list(ws[2])); "ok".to_string() }
             "map" => { *self.mapping.write().unwrap() = Arc::from(list(ws[1]).into_iter().map(|x| x as usize).collect::<Vec<_>>()); "ok".into() }
             "len" => {
-                let n = match &self.lz { Lz::F1(v) => v.len(), Lz::F2(v) => v.len(), Lz::F3(v) => v.len(), Lz::Delta(v) => v.len(), Lz::Agg(v) => v.len() };
+                let n = match &self.lz { Lz::F1(v) => v.len(), Lz::F2(v) => v.len(), Lz::F3(v) => v.len(), Lz::Delta(v) => v.len(), Lz::Chg(v) => v.len(), Lz::Agg(v) => v.len() };
                 format!("ok {n}")
             }
             "range" => {
@@ -139,6 +159,7 @@ impl Case {
                         Lz::F2(v) => nats(&Self::all_range_paths(v, a, b)?),
                         Lz::F3(v) => nats(&Self::all_range_paths(v, a, b)?),
                         Lz::Delta(v) => nats(&Self::all_range_paths(v, a, b)?),
+                        Lz::Chg(v) => nats(&Self::all_range_paths(v, a, b)?.into_iter().map(|x| x as u64).collect::<Vec<_>>()),
                         Lz::Agg(v) => opts(&Self::all_range_paths(v, a, b)?),
                     })
                 }));
@@ -158,7 +179,7 @@ impl Case {
                 let i: usize = ws[1].parse().unwrap();
                 let r = catch_unwind(AssertUnwindSafe(|| match &self.lz {
                     Lz::F1(v) => v.collect_one_at(i).map(Some), Lz::F2(v) => v.collect_one_at(i).map(Some), Lz::F3(v) => v.collect_one_at(i).map(Some),
-                    Lz::Delta(v) => v.collect_one_at(i).map(Some), Lz::Agg(v) => v.collect_one_at(i),
+                    Lz::Delta(v) => v.collect_one_at(i).map(Some), Lz::Chg(v) => v.collect_one_at(i).map(|x| Some(x as u64)), Lz::Agg(v) => v.collect_one_at(i),
                 }));
                 match r {
                     Ok(got) => {
@@ -177,7 +198,7 @@ impl Case {
                 let idx: Vec<usize> = list(ws[1]).into_iter().map(|x| x as usize).collect();
                 let r = catch_unwind(AssertUnwindSafe(|| match &self.lz {
                     Lz::F1(v) => Some(v.read_sorted_at(&idx)), Lz::F2(v) => Some(v.read_sorted_at(&idx)), Lz::F3(v) => Some(v.read_sorted_at(&idx)),
-                    Lz::Delta(v) => Some(v.read_sorted_at(&idx)), Lz::Agg(_) => None,
+                    Lz::Delta(v) => Some(v.read_sorted_at(&idx)), Lz::Chg(v) => Some(v.read_sorted_at(&idx).into_iter().map(|x| x as u64).collect()), Lz::Agg(_) => None,
                 }));
                 match r {
                     Ok(Some(got)) => {
@@ -198,7 +219,8 @@ impl Case {
 
 fn gen_case(seed: u64, c: u64, len: u64, open: bool) -> Vec<String> {
     let mut r = Rng::new(seed.wrapping_mul(1_000_003).wrapping_add(c).wrapping_mul(13));
-    let kind = ["from1", "from2", "from3", "delta", "agg"][(c % 5) as usize];
+    // the change operator only in the clean stream (a window that starts after its index is outside its domain: `h - start`)
+    let kind = if open { ["from1", "from2", "from3", "delta", "agg"][(c % 5) as usize] } else { ["from1", "from2", "from3", "delta", "agg", "chg"][(c % 6) as usize] };
     let nsrc = match kind { "from2" => 2, "from3" => 3, _ => 1 };
     let mut lines = vec![format!("case {c} kind={kind}")];
     let mut vals: Vec<Vec<u64>> = vec![vec![]; nsrc];
@@ -214,15 +236,15 @@ fn gen_case(seed: u64, c: u64, len: u64, open: bool) -> Vec<String> {
             vals[k].truncate(keep);
             for _ in 0..1 + r.below(12) {
                 let prev = vals[k].last().copied().unwrap_or(0);
-                vals[k].push(if kind == "delta" { prev + r.below(9) } else { r.below(100) });
+                vals[k].push(if kind == "delta" || kind == "chg" { prev + r.below(9) } else { r.below(100) });
             }
             lines.push(format!("src {k} {}", fmt(&vals[k])));
             // clean stream: the mapping is rebuilt for the new source length before the next read
             if !open { maplen = 0; }
             continue;
         }
-        if (kind == "delta" || kind == "agg") && (maplen == 0 || r.chance(1, 6)) {
-            let m: Vec<u64> = if kind == "delta" {
+        if (kind == "delta" || kind == "chg" || kind == "agg") && (maplen == 0 || r.chance(1, 6)) {
+            let m: Vec<u64> = if kind == "delta" || kind == "chg" {
                 // monotone window starts, start ≤ index (open stream: empty windows start = index + 1, starts beyond the source)
                 let ln = match r.below(4) { 0 => n0.saturating_sub(2), 1 => n0 + 3, _ => n0 };
                 let mut prev = 0u64;
